@@ -237,6 +237,6 @@ def ServiceParamsValidate (p_MaxRequestTimeout : Int) (p_MinDepositMultiple : In
 def untranslated : List String := []
 
 /-- names of the translated definitions -/
-def translated : List String := ["CoinswapParamsValidate", "FarmValidatePoolCreationFee", "FarmValidateTaxRate", "FarmParamsValidate", "TokenValidateTaxRate", "TokenValidateMintTokenFeeRatio", "TokenValidateIssueTokenBaseFee", "ServiceValidateMaxRequestTimeout", "ServiceValidateMinDepositMultiple", "ServiceValidateMinDeposit", "ServiceValidateSlashFraction", "ServiceValidateServiceFeeTax", "ServiceValidateComplaintRetrospect", "ServiceValidateArbitrationTimeLimit", "ServiceValidateTxSizeLimit", "ServiceValidateRestrictedServiceFeeDenom", "ServiceParamsValidate"]
+def translated : List String := ["CoinswapParamsValidate(p_Fee,p_PoolCreationFee,p_TaxRate,p_UnilateralLiquidityFee)", "FarmValidatePoolCreationFee(i)", "FarmValidateTaxRate(i)", "FarmParamsValidate(p_PoolCreationFee,p_TaxRate)", "TokenValidateTaxRate(i)", "TokenValidateMintTokenFeeRatio(i)", "TokenValidateIssueTokenBaseFee(i)", "ServiceValidateMaxRequestTimeout(i)", "ServiceValidateMinDepositMultiple(i)", "ServiceValidateMinDeposit(i)", "ServiceValidateSlashFraction(i)", "ServiceValidateServiceFeeTax(i)", "ServiceValidateComplaintRetrospect(i)", "ServiceValidateArbitrationTimeLimit(i)", "ServiceValidateTxSizeLimit(i)", "ServiceValidateRestrictedServiceFeeDenom(i)", "ServiceParamsValidate(p_MaxRequestTimeout,p_MinDepositMultiple,p_MinDeposit,p_SlashFraction,p_ServiceFeeTax,p_ComplaintRetrospect,p_ArbitrationTimeLimit,p_TxSizeLimit,p_BaseDenom,p_RestrictedServiceFeeDenom)"]
 
 end Irismod.Gen.PureParams
